@@ -138,9 +138,13 @@ def fresh_of_sort(I, sort, name):
         parts = sort.split(':', 1)[1].split(',')
         return VTuple([fresh_of_sort(I, p, f'{name}{j}') for j, p in enumerate(parts)])
     if sort == 'slice':
-        return VSlice(fresh_of_sort(I, 'opt_int', name + '.start'),
-                      fresh_of_sort(I, 'opt_int', name + '.stop'),
-                      fresh_of_sort(I, 'opt_int', name + '.step'))
+        # each component is None or an int, held symbolically (no path split)
+        comps = []
+        for part in ('start', 'stop', 'step'):
+            t = z3.Const(fresh_name(f'{name}.{part}'), PyVal)
+            I.ex.assume(z3.Or(PyVal.is_PNone(t), PyVal.is_PI(t)))
+            comps.append(VAny(t))
+        return VSlice(*comps)
     if sort == 'func1' or sort == 'func2':
         return VFunc('sym', ident=z3.Int(n), name=name)
     if sort == 'opaque':
@@ -367,6 +371,14 @@ def map_loop(I, node, env, src):
         _, rs = run(i)
         return z3.Not(z3.Or([c for c, _ in rs])) if rs else z3.BoolVal(True)
 
+    if raises0:
+        # the loop completed: no iteration raised (quantified fact, usable by later obligations)
+        jq = z3.Int(fresh_name('nr'))
+        rngq = z3.And(jq >= 0, jq < src.src_len)
+        if src.pred is not None:
+            rngq = z3.And(rngq, src.pred(jq))
+        I.ex.ctx.add(z3.ForAll([jq], z3.Implies(rngq, no_raise(jq))))
+
     for name in appended:
         def pred(i, name=name):
             out, _ = run(i)
@@ -508,8 +520,9 @@ def fresh_of_sort(I, sort, name):      # noqa: F811  (extends the basic sorts)
         _, n, inner = sort.split(':', 2)
         items = [fresh_of_sort(I, inner, f'{name}{j}') for j in range(int(n))]
         return VList(items) if sort.startswith('listof:') else VTuple(items)
-    if sort == 'name':      # a column / vector name: None or a string
-        if I.ex.choose(z3.Bool(fresh_name(f'{name}.isnone'))):
-            return NONE
-        return VStr(z3.String(fresh_name(name)))
+    if sort == 'name':      # a column / vector name: None or a string, held symbolically (no path split)
+        from .model import PyVal as _P
+        t = z3.Const(fresh_name(name), _P)
+        I.ex.assume(z3.Or(_P.is_PNone(t), _P.is_PS(t)))
+        return VAny(t)
     return _base_fresh(I, sort, name)
